@@ -130,11 +130,19 @@ def plan(rng, idx, tier):
         style['leading'] = srng.pick(['\n', '\n\n', '  ', '# leading comment\n', '\t\n', '\ufeff', '\ufeff\n'])
     if srng.chance(0.08):
         style['trailing'] = srng.pick(['\n', '# comment at EOF', '# comment at EOF\n', '   ', 'junk'])
+    giant = idx % 6000 == 3000 and bool(graphs)
+    if giant:
+        # one text of more than 2**20 characters (strategies change at such sizes), half of them with bare-CR line ends
+        graphs[0]['meta'] = [m_ for m_ in graphs[0]['meta'] if m_[0] != 'huge'] + \
+            [['huge', 'z7 ' * (355000 + rng.sub('giant').randrange(500)) + 'end']]
+        mode = 'benign'
     if style.get('leading', '').startswith('\ufeff') and mode != 'benign':
         # a text that starts with U+FEFF decodes to nothing (the decoder stops at the first token that cannot
         # start a graph) and is never read to its end: only the container comparison says anything about it
         mode = 'benign'
     newline = srng.weighted([('LF', 4), ('CRLF', 3), ('CR', 2), ('mixed', 2)])
+    if giant and rng.sub('giantnl').chance(0.5):
+        newline = 'CR'
     crng = rng.sub('containers')
     k = 3 + crng.randrange(5)
     containers = sorted(crng.sample(CONTAINERS, k), key=CONTAINERS.index)
